@@ -63,6 +63,22 @@ func (c *FnCtx) callWrites(cc *ssa.CallCommon) []string {
 		if fc.Pure {
 			return nil
 		}
+		if c.frameOnly && len(fc.ModFresh) > 0 {
+			// writes into objects the callee allocated itself are invisible to this function's callers
+			var out []string
+			for _, m := range fc.Modifies {
+				fresh := false
+				for _, f := range fc.ModFresh {
+					if f == m {
+						fresh = true
+					}
+				}
+				if !fresh {
+					out = append(out, m)
+				}
+			}
+			return out
+		}
 		return fc.Modifies
 	}
 	if pureLibs[name] || c.eng.cs.Dets[name] != nil {
@@ -284,7 +300,17 @@ func (c *FnCtx) callContract(st *State, in ssa.Instruction, cc *ssa.CallCommon, 
 	}
 	if !fc.Pure {
 		for _, m := range fc.Modifies {
-			c.havocHeap(st, m)
+			fresh := false
+			for _, f := range fc.ModFresh {
+				if f == m {
+					fresh = true
+				}
+			}
+			if fresh {
+				c.havocHeapFresh(st, m)
+			} else {
+				c.havocHeap(st, m)
+			}
 		}
 		// the callee may have allocated: the allocation counter may have advanced
 		nr := c.declare("nextRef", sInt)
@@ -361,7 +387,7 @@ func (c *FnCtx) execBuiltin(st *State, in ssa.Instruction, b *ssa.Builtin, cc *s
 	case "copy":
 		return c.execCopy(st, args[0].(VSlice), args[1])
 	case "delete":
-		c.havocHeap(st, "M$")
+		c.execMapDelete(st, mapTypeOf(cc.Args[0].Type()), args[0], args[1])
 		return VTuple{}
 	case "ssa:wrapnilchk":
 		return args[0]
@@ -498,32 +524,16 @@ func (c *FnCtx) mapLen(st *State, m string) string {
 	return n
 }
 
-func (c *FnCtx) mapLookup(st *State, in *ssa.Lookup) Val {
-	t := in.Type()
-	c.abstracted["map lookup (result unconstrained)"]++
-	if in.CommaOk {
-		tt := t.(*types.Tuple)
-		ok := c.declare("mapok", sBool)
-		v := c.freshVal(st, tt.At(0).Type(), "mapval")
-		z := c.zeroVal(tt.At(0).Type())
-		// missing key yields the zero value
-		fv, fz := flatten(v), flatten(z)
-		for i := range fv {
-			c.assert(implies(not(ok), eq(fv[i], fz[i])))
-		}
-		return VTuple{E: []Val{v, VBool{ok}}}
-	}
-	return c.freshVal(st, t, "mapval")
-}
-
 func (c *FnCtx) execRange(st *State, in *ssa.Range) Val {
 	it := VOpaque{c.declare("iter", sInt)}
 	if _, isMap := in.X.Type().Underlying().(*types.Map); isMap {
 		if m, ok := c.val(st, in.X).(VInt); ok {
 			if c.iterMap == nil {
 				c.iterMap = map[ssa.Value]string{}
+				c.iterMapT = map[ssa.Value]*types.Map{}
 			}
 			c.iterMap[in] = m.T
+			c.iterMapT[in] = mapTypeOf(in.X.Type())
 		}
 	}
 	return it
@@ -534,6 +544,24 @@ func (c *FnCtx) execNext(st *State, in *ssa.Next) Val {
 	tt := in.Type().(*types.Tuple)
 	out := VTuple{}
 	out.E = append(out.E, VBool{c.declare("next.ok", sBool)})
+	if m, ok := c.iterMap[in.Iter]; ok && c.iterMapT[in.Iter] != nil && c.mapKeyOK(c.iterMapT[in.Iter]) {
+		mt := c.iterMapT[in.Iter]
+		var key Val
+		if !isInvalid(tt.At(1).Type()) {
+			key = c.freshVal(st, tt.At(1).Type(), "next.key")
+		}
+		_, val := c.mapNext(st, mt, m, out.E[0].(VBool).T, key)
+		if key == nil {
+			key = VInt{"0"}
+		}
+		out.E = append(out.E, key)
+		if isInvalid(tt.At(2).Type()) {
+			out.E = append(out.E, VInt{"0"})
+		} else {
+			out.E = append(out.E, val)
+		}
+		return out
+	}
 	for i := 1; i < tt.Len(); i++ {
 		ti := tt.At(i).Type()
 		if isInvalid(ti) {
@@ -541,11 +569,6 @@ func (c *FnCtx) execNext(st *State, in *ssa.Next) Val {
 			continue
 		}
 		out.E = append(out.E, c.freshVal(st, ti, fmt.Sprintf("next.%d", i)))
-	}
-	if m, ok := c.iterMap[in.Iter]; ok && len(out.E) > 1 {
-		// a key delivered by ranging over a map is a key of that map
-		c.eng.needMapHas = true
-		c.assume(st, implies(out.E[0].(VBool).T, app("maphas", append([]string{m}, c.keyTerms(out.E[1])...)...)))
 	}
 	if in.IsString {
 		// rune index within the string is not modelled
@@ -638,9 +661,28 @@ func (e *Engine) ghostCall(env *Env, x ECall) (Val, bool) {
 		}
 	case "buflen": // ghost length of a *bytes.Buffer
 		return VInt{sel(c.heapGet(env.st, "G$buf.len", arrSort(sInt)), env.evalInt(x.Args[0]))}, true
-	case "maphas": // maphas(m, k): k is a key of map m (only facts delivered by ranging over m are known)
-		e.needMapHas = true
-		return VBool{app("maphas", append([]string{env.evalInt(x.Args[0])}, c.keyTerms(env.eval(x.Args[1]))...)...)}, true
+	case "maphas", "mapval": // maphas(m, k): k is a key of map m; mapval(m, k): the value stored under k
+		mt := env.mapType(x.Args[0])
+		if mt == nil || !c.mapKeyOK(mt) {
+			sfail("%s: %s is not a map with a modelled key type", x.Fn, x.Args[0])
+		}
+		m := env.evalInt(x.Args[0])
+		kid := c.keyID(env.eval(x.Args[1]))
+		if x.Fn == "maphas" {
+			return VBool{c.mapHas(env.st, mt, m, kid)}, true // (a nil map has no entries: callers state m != nil where it matters)
+		}
+		v := c.mapVal(env.st, mt, m, kid)
+		if sl, ok := v.(VSlice); ok {
+			sl.Elem = mt.Elem().Underlying().(*types.Slice).Elem()
+			v = sl
+		}
+		if p, ok := v.(VPtr); ok {
+			if pt, ok := mt.Elem().Underlying().(*types.Pointer); ok {
+				p.T = pt.Elem()
+				v = p
+			}
+		}
+		return v, true
 	case "fdIsList", "fdIsMap":
 		e.needProto = true
 		return VBool{app(x.Fn, env.eval(x.Args[0]).(VIface).Pay)}, true
